@@ -51,7 +51,9 @@ def c03(tier, seed):
 def c04(tier, seed):
     w = n(tier, 200, 3000)
     runs = [dict(cfg=c, traces=w, preds=C04_PREDS) for c in ("p11", "prst", "pnat", "plife0", "plifeD0")]
-    plan = {"runs": runs, "mc": [("plifemc", ["SelWhileConnected"], None)], "assumptions": SESSION_ASSUME}
+    runs[1]["scheds"] = ["fc04_failed_then_connected"]
+    plan = {"runs": runs, "mc": [("plifemc", ["SelWhileConnected"], n(tier, {"MaxTicks": 2, "Steps": [2], "MaxTime": 6}, {"MaxTicks": 3, "Steps": [3], "MaxTime": 9}),
+                   ["ReleasedOnFailed", "Lifecycle"])], "assumptions": SESSION_ASSUME}
     return session.run_property("C04", tier, seed, plan)
 
 
